@@ -34,6 +34,55 @@ def same_guard(ctx, chk, fn, floor):
 import props.anchors as anchors
 
 
+def hole_amount_conserved(ctx, chk, rid):
+    """shared by C10 and C12: what write_with takes out of the hole map is exactly what it adds to a reservation.
+    Symbolic comparison of the operands (expression trees of engine D): for the hole directly behind the region
+    (start + reserved) the amount removed is `new_reserved - reserved` for the `new_reserved` handed to set_reserved;
+    for a relocation target the amount removed is the amount reserved."""
+    import decode
+    O, P = ctx.O, ctx.P
+    D = getattr(ctx, "_decode", None) or decode.Decode(P)
+    ctx._decode = D
+    ww = O.body(WRITE_WITH)
+    rc = O.need_sites(ww, M(r"rawdb::layout::Layout::remove_or_compress_hole"), 2)
+    srs = O.sites(ww, M(r"rawdb::region_metadata::RegionMetadata::set_reserved"))
+    rvs = O.sites(ww, RESERVE)
+    for b in rc:
+        t = ww.blocks[b]["term"]
+        st, sz = D.expr(ww, t["args"][1]), D.expr(ww, t["args"][2])
+        if st[0] == "add":
+            cands = [D.expr(ww, ww.blocks[s_]["term"]["args"][1]) for s_ in srs if O.can_reach(ww, b, [s_])]
+            ok = any(sz == ("sub", n_, r_) for n_ in cands for r_ in st[1:])
+            what = "adjacent hole: removed %s, reservation set to %s" % (D.show(sz), [D.show(c_) for c_ in cands])
+        else:
+            cands = [D.expr(ww, ww.blocks[s_]["term"]["args"][2]) for s_ in rvs if O.can_reach(ww, b, [s_])]
+            ok = bool(cands) and all(sz == c_ for c_ in cands) and sz != ("?",)
+            what = "relocation target: removed %s, reserved %s" % (D.show(sz), [D.show(c_) for c_ in cands])
+        chk.oblige("%s write_with: the amount taken out of the hole map equals the amount claimed (%s)" % (rid, what), ok,
+                   key="%s|write_with|hole-amount-mismatch" % rid,
+                   msg="claiming more than was removed from the hole map makes the region's reserve overlap its "
+                       "neighbour (compaction punches it, the next allocation hands it out); claiming less leaks space")
+
+
+def create_checks_under_lock(ctx, chk, rid):
+    """Regions::create mutates the table before it notices a duplicate id: the existence test that guards it must run
+    under the same REGIONS write guard (check and insert atomic)"""
+    O, P = ctx.O, ctx.P
+    cr = O.body("rawdb::Database::create_region_if_needed")
+    cs = O.need_sites(cr, M(r"rawdb::regions::Regions::create"), 1)
+    lookups = M(r"rawdb::regions::Regions::(get_from_id|get_index_from_id|contains)|std::collections::hash::map::HashMap::<K, V, S(, A)?>::(get|contains_key)")
+    for b in cs:
+        g = O.guard_local_of(cr, cr.blocks[b]["term"]["args"][0])
+        ls = [x for x in O.sites(cr, lookups) if O.guard_local_of(cr, cr.blocks[x]["term"]["args"][0]) == g and g is not None
+              and O.can_reach(cr, x, [b])]
+        held = O.held_classes(cr, b)
+        chk.oblige("%s create_region_if_needed: the id is looked up through the REGIONS write guard that Regions::create "
+                   "uses [%d lookup(s) on that guard]" % (rid, len(ls)), bool(ls) and ("REGIONS", "W") in held,
+                   key="%s|create_region_if_needed|check-outside-write-lock" % rid,
+                   msg="an existence test made before the write lock is taken leaves a window in which another thread "
+                       "creates or renames a region to the same id; create then fails after having changed the table")
+
+
 def hole_target_removed(ctx, chk, rid):
     """shared by C10 and C12"""
     O = ctx.O
@@ -161,6 +210,13 @@ def run(ctx, chk):
     # A10.2d a hole chosen as relocation target is taken out of the reusable-hole maps under the deciding LAYOUT:W
     # guard (reserving it is not enough: compaction punches what the hole map lists)
     hole_target_removed(ctx, chk, "A10.2d")
+    # A10.11 check-and-insert of a region id is atomic
+    create_checks_under_lock(ctx, chk, "A10.11")
+    # A10.12 = B05.3d the hole maps (two indexes of one set) are changed only through insert_hole / remove_hole
+    from props.c05 import layout_map_writers
+    layout_map_writers(ctx, chk, "A10.12")
+    # A10.13 what leaves the hole map is what is claimed
+    hole_amount_conserved(ctx, chk, "A10.13")
     # A10.6 a Reader pins its region: it owns a Region clone (removal is refused while it is alive)
     rd = P.adts.get("rawdb::reader::Reader")
     if rd is None:
